@@ -182,6 +182,9 @@ class GridSearch(BaseEstimator, MetaEstimatorMixin):
                 logger.debug("Applying relabelling for classification problem")
                 y_reduction = 1 * (weights > 0)
                 weights = weights.abs()
+                if weights.sum() == 0:
+                    # every predictor is a best response; avoid all-zero sample weights
+                    weights = weights + 1.0
             else:
                 y_reduction = self.constraints._y_as_series
 
